@@ -371,4 +371,57 @@ def Ev.toks (color : Bool) : Ev → List String
 
 def toksOf (color : Bool) (evs : List Ev) : List String := evs.flatMap (Ev.toks color)
 
+/-! ## the Visual Studio working environment (`TestOutput::setWorkingEnvironment(visualStudio)`) -/
+
+/-- `printVisualStudioErrorInFileOnLine` -/
+def locToksVS (file : String) (line : Nat) : List String :=
+  ["\n", file, "(", toString line, "):", " error:"]
+
+/-- `TestOutput::printFailure` in the Visual Studio environment -/
+def failureToksVS (r : FailRec) : List String :=
+  (if r.twoLocations then
+    locToksVS r.testFile r.testLine ++ [" Failure in ", r.testName] ++ locToksVS r.file r.line
+   else
+    locToksVS r.file r.line ++ [" Failure in ", r.testName])
+  ++ ["\n", "\t", r.msg, "\n\n"]
+
+/-- `\n<file>(<line>): error:` -/
+def parseLocVS : List String → Option ((String × String) × List String)
+  | nl :: f :: c1 :: l :: c2 :: e :: rest =>
+    if nl = "\n" ∧ c1 = "(" ∧ c2 = "):" ∧ e = " error:" then some ((f, l), rest) else none
+  | _ => none
+
+def readRecordVS (before after : List String) : Option Printed :=
+  match before, after with
+  | e :: c2 :: l :: c1 :: f :: nl :: _, name :: rest =>
+    if nl = "\n" ∧ c1 = "(" ∧ c2 = "):" ∧ e = " error:" then
+      (match parseLocVS rest with
+       | some (loc2, rest2) => parseTail loc2 name (some (f, l)) rest2
+       | none => parseTail (f, l) name none rest)
+    else none
+  | _, _ => none
+
+/-- the reader of a console text written in the Visual Studio format -/
+def scanFromVS : List String → List String → List Printed
+  | _, [] => []
+  | before, t :: rest =>
+    if t = failureMarker then (readRecordVS before rest).toList ++ scanFromVS (t :: before) rest
+    else scanFromVS (t :: before) rest
+
+def scanFailuresVS (toks : List String) : List Printed := scanFromVS [] toks
+
+/-- as `FailRec.clean`; the lone string that could be mistaken for the start of a second location is "(" -/
+def FailRec.cleanVS (r : FailRec) : Prop :=
+  r.msg ≠ "(" ∧ r.msg ∉ markers ∧ r.file ∉ markers ∧ r.testFile ∉ markers ∧ r.testName ∉ markers
+
+/-- the console text of an event list in the chosen working environment -/
+def Ev.toksEnv (vs color : Bool) : Ev → List String
+  | .tok s => [s]
+  | .failure r => if vs then failureToksVS r else failureToks r
+  | .sepFailure r => if vs then failureToksVS r else failureToks r
+  | .summary r time => summaryToks color r time
+  | _ => []
+
+def toksOfEnv (vs color : Bool) (evs : List Ev) : List String := evs.flatMap (Ev.toksEnv vs color)
+
 end Runner
